@@ -15,7 +15,7 @@ Act(o) == CASE o.op = "DlOpen" -> DlOpen(o.id, o.size) [] o.op = "DlWrite" -> Dl
             [] o.op = "TrList" -> TrList(o.id, o.size) [] o.op \in {"TrStop", "TrResume", "TrRemove"} -> TrCtl(o.op, o.id, o.found)
             [] o.op = "PfOpen" -> PfOpen(o.id, o.tgt) [] o.op = "PfRead" -> PfRead(o.id, o.ty, o.n) [] o.op = "PfReadFail" -> PfReadFail(o.id, o.ty)
             [] o.op = "PfWrite" -> PfWrite(o.id, o.ok) [] o.op = "PfClose" -> PfClose(o.id, o.ty) [] o.op = "PfConnect" -> PfConnect(o.id, o.ok)
-            [] o.op = "PfRemove" -> PfRemove(o.id, o.ty) [] o.op = "PfAdd" -> PfAdd(o.id, o.ok) [] o.op = "PfClear" -> PfClear(o.ok)
+            [] o.op = "Burst" -> Burst(o.width, o.queue) [] o.op = "PfRemove" -> PfRemove(o.id, o.ty) [] o.op = "PfAdd" -> PfAdd(o.id, o.ok) [] o.op = "PfClear" -> PfClear(o.ok)
 (* strict: the model's tables are the real tables after the step *)
 SStep == IsEvent("Step") /\ Act(E.o) /\ obs' = E.obs /\ dls' = E.dls /\ pfs' = E.pfs
 (* monitor: only what was observed *)
